@@ -59,7 +59,7 @@ var props = map[string]PropMeta{
 	},
 	"C02": {
 		Level: "exploration",
-		Rule: "one run = a real hub A, an honest victim device V (real certificate from the library's generator) and an adversary E on the simulated network; inbound: E connects to A as TLS/websocket client with a generated certificate whose SubjectKeyId is {correct SHA-1 of its key, copied from V's certificate onto a fresh key, absent, length 1/19/21/40, random 20 bytes, absent on the leaf but present on a second chain certificate}, arbitrary subject strings, TLS max version 1.0..1.3, with/without client certificate, sub-protocol offers {ship, none, foo, foo+ship, SHIP}, optionally slower than the 10 s header timeout; outbound: A has registered V, a forged mDNS record places V's SKI at E's address, E presents each certificate variant as server; E then tries to get a SHIP message processed / records every binary frame it receives; oracle: a SHIP frame or an application callback naming the presented SKI implies the leaf SKI is the 20-byte SHA-1 of the presented key, TLS >= 1.2, 'ship' negotiated and (outbound) presented == dialled; " +
+		Rule: "one run = a real hub A, an honest victim device V (real certificate from the library's generator) and an adversary E on the simulated network; inbound: E connects to A as TLS/websocket client with a generated certificate whose SubjectKeyId is {correct SHA-1 of its key, copied from V's certificate onto a fresh key, absent, length 1/19/21/40, random 20 bytes, absent on the leaf but present on a second chain certificate, copied from V plus a second, valid chain certificate}, arbitrary subject strings, TLS max version 1.0..1.3, with/without client certificate, sub-protocol offers {ship, none, foo, foo+ship, SHIP}, optionally slower than the 10 s header timeout; outbound: A has registered V, a forged mDNS record places V's SKI at E's address, E presents each certificate variant as server; a refused E dials up to twice more, resuming the TLS session of its first attempt; E then tries to get a SHIP message processed / records every binary frame it receives; oracle: a SHIP frame or an application callback naming the presented SKI implies the leaf SKI is the 20-byte SHA-1 of the presented key, TLS >= 1.2, 'ship' negotiated and (outbound) presented == dialled; " +
 			"non-trivial = all runs; distinct = distinct (direction, SKI mode, TLS version, client cert, sub-protocols) tuples",
 		Real: hubReal, Stub: append(append([]string{}, hubStub...), "adversary (real crypto/tls + gorilla client/server driven by the harness with generated certificates)"),
 		QuickS: 30, ThoroughS: 420, QuickWorkers: 8,
